@@ -96,6 +96,9 @@ var compileSources = []string{
 	"; an ordinary comment first\n;;;; optimize:false\n(and (or x y) (> (+ n 1) m) (= s \"a\"))",
 	"\n  \t;;;; reordering:false, constant_folding:false\n(or (and true x) (if y (> n 0) (in n l)) (f z))",
 	";; note\n; another\n;;;; fast_evaluation:false\n;;;; reduce_nesting:false\n(and x (and y (and z (or x y))))",
+	"(and (| x y) (gt (add n 1) m) (== s \"a\") (in n l) (f z) (|| y z) (&& x z))",
+	"(or (== n m) (eq s \"b\") (> n m) (&& x y) (p z) (|| z y))",
+	"(and (lt m 2) (== n 1))",
 }
 
 func baseConfig(r *rand.Rand, kind int) *eval.Config {
@@ -115,6 +118,13 @@ func baseConfig(r *rand.Rand, kind int) *eval.Config {
 	cc.StatelessOperators = append(make([]string, 0, 8), cc.StatelessOperators...)
 	if kind%2 == 0 {
 		cc.CostsMap["x"], cc.CostsMap["f"] = 50, -3
+	}
+	if kind%4 == 3 || kind == 4 {
+		// different costs for different spellings of the same operator: a cost belongs to the spelling
+		for n, c := range map[string]float64{"eq": 1, "=": 400, "and": 2, "&": 990, "or": 3, "|": 950, // (the third spelling has no entry)
+			"gt": 4, "add": 6, "+": 85, "in": 7, "f": 20, "p": 30} {
+			cc.CostsMap[n] = c
+		}
 	}
 	if kind%3 == 1 {
 		delete(cc.CompileOptions, eval.ConstantFolding) // absent = enabled
@@ -187,6 +197,9 @@ func famCompile() {
 		}
 		emit(M{"fam": "compile", "for": "C08", "kind": "history", "id": id, "steps": steps, "src": "compile history"})
 	}
+	if *fFor != "concurrent" {
+		convHistories(r, *fN/3+1, &id)
+	}
 	// ---- concurrent compilations on one shared config ----
 	nconc := *fN/10 + 1
 	if *fFor == "sequential" {
@@ -224,6 +237,57 @@ func famCompile() {
 		}
 		emit(M{"fam": "compile", "for": "C08", "kind": "concurrent", "id": id, "before": hashOf(before), "after": hashOf(snapshot(cc)),
 			"runs": all, "src": "concurrent compiles"})
+	}
+}
+
+// convHistories: the convenience call without options, same source and same names, other operator
+// functions behind the names from call to call.
+func convHistories(r *rand.Rand, n int, id *int) {
+	g := &gen{r: r, c: GenCfg{Custom: true, Alias: true, MaxKids: 3, Lists: true, Strings: true, Failing: true}}
+	uses := func(src string) bool {
+		for _, n := range []string{"(f ", "(g ", "(zt)", "(zf)"} {
+			if strings.Contains(src, n) {
+				return true
+			}
+		}
+		return false
+	}
+	for i := 0; i < n; i++ {
+		typ := "b"
+		if r.Intn(3) == 0 {
+			typ = "i"
+		}
+		t, _ := g.tree(typ, 1+r.Intn(3))
+		src := t.Src()
+		if len(t.Kids) == 0 || !uses(src) {
+			i--
+			continue
+		}
+		*id++
+		calls := []interface{}{}
+		first := r.Intn(2)
+		for k := 0; k < 4; k++ {
+			env := randEnv(r)
+			swap := (k+first)%2 == 1
+			vals := map[string]interface{}{}
+			for n, v := range env {
+				vals[n] = v
+			}
+			ops := customOps(&Log{Phase: "eval"})
+			for n, f := range ops {
+				vals[n] = f
+			}
+			if swap {
+				vals["f"], vals["g"] = ops["g"], ops["f"]
+				vals["zt"], vals["zf"] = ops["zf"], ops["zt"]
+			}
+			res := safely(func() M {
+				v, err := eval.Eval(src, vals)
+				return outcome(v, err)
+			})
+			calls = append(calls, M{"swap": swap, "env": envRec(env), "res": res})
+		}
+		emit(M{"fam": "compile", "for": "C08", "kind": "conv", "id": *id, "src": src, "tree": t, "calls": calls})
 	}
 }
 
